@@ -160,6 +160,9 @@ func (c *RunCtx) writeCasesJSON() {
 
 var suites = map[string]*Suite{}
 
+// suites whose replay files are not syscase histories register their own replayer
+var replayers = map[string]func(path string) int{}
+
 func register(s *Suite) { suites[s.Name] = s }
 
 func main() {
@@ -175,6 +178,9 @@ func main() {
 	replay := fs.String("replay", "", "replay file")
 	_ = fs.Parse(os.Args[2:])
 	if *replay != "" {
+		if f, ok := replayers[name]; ok {
+			os.Exit(f(*replay))
+		}
 		os.Exit(runReplay(*replay))
 	}
 	s, ok := suites[name]
